@@ -105,6 +105,19 @@ def corpus_hist(pid):
     return sets
 
 
+def corpus_traces(pid):
+    """Recorded event logs of real runs that the model once rejected WRONGLY (model gaps, corrected): H lines in
+    corpus/<pid>/trace-*.h.  They are fed to the acceptor with the live histories and must stay accepted; they are
+    counted apart (a recorded log is not a trace validated against the implementation in this run)."""
+    d = os.path.join(C.VERIF, "corpus", pid)
+    out = []
+    if os.path.isdir(d):
+        for f in sorted(os.listdir(d)):
+            if f.startswith("trace-") and f.endswith(".h"):
+                out += [l.rstrip("\n") for l in open(os.path.join(d, f)) if l.startswith("H\t")]
+    return out
+
+
 def run_hist(run, pid):
     """Runs the history family and the acceptor.  Returns dict with everything the two checks need."""
     sets, workers = hist_argsets(run)
@@ -112,6 +125,8 @@ def run_hist(run, pid):
     rc, lines = parallel(sets, workers)
     res = {"lines": lines, "rc": rc}
     hl = [l for l in lines if l.startswith("H\t")]
+    recorded = corpus_traces(pid)
+    hl += recorded
     scripts = {}
     for l in lines:
         if l.startswith("HS\t"):
@@ -125,7 +140,7 @@ def run_hist(run, pid):
             props.append({"script": t[1], "prop": name, "ok": verdict == "ok", "text": rest})
     mism, find, acc, stats, ok, err = model(hl)
     res.update({"hist_lines": hl, "scripts": scripts, "props": props, "mismatches": mism, "acc": acc,
-                "stats": stats, "model_ok": ok, "model_err": err,
+                "stats": stats, "model_ok": ok, "model_err": err, "recorded_traces": len(recorded),
                 "hung": [l for l in lines if l.startswith("HUNG\t") or l.startswith("HERR\t")],
                 "env_noise": [l for l in lines if l.startswith("HENV\t")]})
     return res
@@ -236,7 +251,8 @@ def hist_coverage(run, res, extra_rule=""):
                 "interference), measured; each history is run against the real runner in real time and its whole "
                 "event log must be accepted by the extracted acceptor" + extra_rule,
         "samples": samples,
-        "traces_validated_against_impl": st.get("hist_acc", 0),
+        "traces_validated_against_impl": max(0, st.get("hist_acc", 0) - res.get("recorded_traces", 0)),
+        "recorded_traces_replayed_through_the_acceptor": res.get("recorded_traces", 0),
         "trace_events": st.get("hist_events", 0),
         "inconclusive_traces": st.get("hist_inconclusive", 0),
         "parks_matched": parks_hit, "parks_missed": parks_missed,
